@@ -897,6 +897,8 @@ def elementwise(kind, v, extra=None):
         return Val(v.axes, [(D(1), Net())], kind="bool")
     if kind == "Ne0" and ST.generic_nonzero and nt:
         return Val(v.axes, [(D(1), Net())], kind="bool")       # a non-zero normal form is non-zero for generic inputs
+    if kind == "Eq0" and ST.generic_nonzero and nt:
+        return Val(v.axes, [], kind="bool")
     if kind in PARITY and nt and _negative_orientation(nt):
         pos = elementwise(kind, neg(v), extra)
         if PARITY[kind] == "even":
